@@ -64,6 +64,9 @@ class NDesc(object):
         self.mhist = []         # model of every history item (empty = all on model 0)
         self.falsy = []         # per model: 0 truthy, 1 always falsy (__bool__), 2 falsy during its odd-numbered calls
         self.suspend = {}       # callback id -> number of times it really suspends (async classes only)
+        self.start = None       # number of models registered at construction (None = all of them)
+        self.mops = []          # membership operations between events: [k, 'add' | 'remove', [model ids], initial path | None],
+                                # carried out before history item k (k = len(history): after the last one)
 
     # -- traversal ----------------------------------------------------------------------------
     def walk(self):
@@ -171,6 +174,36 @@ class NDesc(object):
     def history_of(self, m):
         return [ev for k, ev in enumerate(self.history) if self.model_of(k) == m]
 
+    def life_plan(self):
+        """(lives, new): a LIFE of a model lasts from its registration to its removal (or the end); lives are numbered in
+        the order they begin. lives[li] = {'model', 'initial' (path | None = the machine's), 'items' (history indices)};
+        new[j] = [(model, li)] the lives which membership operation j begins. An add_model call begins a life for every
+        model it names that is not registered at that moment (first mention counts); all other models are not touched."""
+        n = max(1, self.models)
+        start = n if self.start is None else self.start
+        lives = [{'model': m, 'initial': None, 'items': []} for m in range(start)]
+        cur = {m: m for m in range(start)}
+        new = []
+        ops = sorted(enumerate(self.mops), key=lambda jo: (jo[1][0], jo[0]))
+        new = [[] for _ in self.mops]
+        oi = 0
+        for k in range(len(self.history) + 1):
+            while oi < len(ops) and ops[oi][1][0] <= k:
+                j, (_k, kind, mids, init) = ops[oi]
+                oi += 1
+                if kind == 'add':
+                    for m in mids:
+                        if m not in cur:
+                            cur[m] = len(lives)
+                            new[j].append((m, len(lives)))
+                            lives.append({'model': m, 'initial': (list(init) if init is not None else None), 'items': []})
+                else:
+                    for m in mids:
+                        cur.pop(m, None)
+            if k < len(self.history) and self.model_of(k) in cur:
+                lives[cur[self.model_of(k)]]['items'].append(k)
+        return lives, new
+
     def enc_case_model(self, m):
         """the case as model `m` sees it: models of one machine are independent, script counters are per model"""
         return self.enc_cfg() + self.enc_script() + _l(self.history_of(m))
@@ -193,6 +226,8 @@ class NDesc(object):
         x.models = j.get('models', 1)
         x.mhist = list(j.get('mhist', []))
         x.falsy = list(j.get('falsy', []))
+        x.start = j.get('start')
+        x.mops = [[o[0], o[1], list(o[2]), (list(o[3]) if o[3] is not None else None)] for o in j.get('mops', [])]
 
         def fix_events(evs):
             out = []
@@ -282,6 +317,7 @@ class NKnobs(object):
         self.p_extra_cb = 0.2
         self.p_ignore = 0.25
         self.p_deep_initial = 0.3   # machine initial is a nested path
+        self.p_mops = 0.0           # several models: membership operations (add_model / remove_model) between events
         self.max_models = 1         # models on one machine (each history item goes to one of them)
         self.p_falsy = 0.0          # a model is falsy (always / on its odd-numbered calls)
         self.p_suspend = 0.0        # an on_enter / on_exit callback really suspends (1-3 times) on the async classes
@@ -452,6 +488,23 @@ def gen_nested(rng, kn):
         for c, slot in sorted(d.cb_slot.items()):
             if slot in (SLOT['on_enter'], SLOT['on_exit']) and rng.random() < kn.p_suspend:
                 d.suspend[c] = rng.randint(1, 3)
+    if kn.p_mops > 0 and d.models > 1 and rng.random() < kn.p_mops:
+        d.start = rng.randint(1, d.models)
+        reg = set(range(d.start))
+        for k in range(len(d.history) + 1):
+            if rng.random() < 0.35:
+                if reg and rng.random() < 0.3:
+                    mids = rng.sample(sorted(reg), rng.randint(1, min(2, len(reg))))
+                    d.mops.append([k, 'remove', mids, None])
+                    reg -= set(mids)
+                else:
+                    # lists mixing registered and new models, a model named twice, with and without `initial=`
+                    mids = [rng.randrange(d.models) for _ in range(rng.randint(1, 3))]
+                    init = list(rng.choice(paths)) if rng.random() < 0.3 else None
+                    d.mops.append([k, 'add', mids, init])
+                    reg |= set(mids)
+            if k < len(d.history) and d.mhist[k] not in reg and reg and rng.random() < 0.85:
+                d.mhist[k] = rng.choice(sorted(reg))
     return d
 
 
@@ -501,7 +554,11 @@ class NestedRun(object):
         if enum:
             self._make_enums()
         self.is_async = 'Async' in cls_name
-        self.views = {m: View() for m in range(max(1, desc.models))}
+        self.lives, self.op_new = desc.life_plan()
+        self.life_views = [View() for _ in self.lives]      # one view per life (see NDesc.life_plan)
+        nstart = max(1, desc.models) if desc.start is None else desc.start
+        self.registered = set(range(nstart))
+        self.views = {m: self.life_views[m] for m in range(nstart)}      # the view of a model's current life
         self.index = {pname(p): i for i, (p, _n) in enumerate(desc.walk())}
         self.nstates = len(self.index)
         self.model_objs = [BoolModel(m, self) for m in range(max(1, desc.models))]
@@ -609,7 +666,8 @@ class NestedRun(object):
 
     def build(self, cls, extra):
         d = self.d
-        kw = dict(model=(self.model if len(self.model_objs) == 1 else list(self.model_objs)),
+        first = [self.model_objs[m] for m in sorted(self.registered)]
+        kw = dict(model=(first[0] if len(self.model_objs) == 1 else first),
                   states=[self.node_def(n) for n in d.roots],
                   transitions=[self.trans_def(ev, t) for ev, ts in d.events for t in ts],
                   initial=self.sref(d.initial), send_event=False, auto_transitions=False,
@@ -740,20 +798,72 @@ class NestedRun(object):
             self.views[mid].bad.append(('odd-state', repr(v)))
         return v
 
+    def membership(self, j, last):
+        """membership operation j of the description; afterwards every model that did not begin a life keeps its state"""
+        _k, kind, mids, init = self.d.mops[j]
+        objs = [self.model_objs[m] for m in mids]
+        arg = objs[0] if (len(objs) == 1 and j % 2 == 0) else objs
+        if kind == 'add' and 'Graph' in self.cls_name:
+            # GraphMachine.add_model refuses a model that carries `get_graph` (AttributeError: "Model already has a
+            # get_graph attribute"), i.e. every model that is or was registered: take the attribute off first
+            for mo in objs:
+                mo.__dict__.pop('get_graph', None)
+        try:
+            if kind == 'add':
+                if init is not None:
+                    self.machine.add_model(arg, initial=self.sref(init))
+                else:
+                    self.machine.add_model(arg)
+            else:
+                self.machine.remove_model(arg)
+        except BaseException as e:
+            if isinstance(e, (common.MachineryError, KeyboardInterrupt, CaseTimeout)):
+                raise
+            self.life_views[0].bad.append(('membership-op-raised', j, kind, '%s: %s' % (type(e).__name__, str(e)[:120])))
+        begun = dict(self.op_new[j])
+        if kind == 'remove':
+            self.registered -= set(mids)
+        for m, li in self.op_new[j]:
+            self.registered.add(m)
+            self.views[m] = self.life_views[li]
+            last[m] = self.state_value(m)
+            self.views[m].states_after.append(last[m])
+        for m in sorted(last):
+            if m in begun:
+                continue
+            now = self.state_value(m)
+            if now != last[m]:
+                # the per-model clause again: only callbacks (enter / exit) move a model, registering or removing
+                # OTHER models - or naming a registered model in add_model - does not
+                self.views[m].bad.append(('moved-by-membership-op', 'operation %d (%s %r)' % (j, kind, mids),
+                                          repr(last[m])[:80], repr(now)[:80]))
+                last[m] = now
+
     def run(self):
         d = self.d
         last = {}
-        for m in self.views:
+        for m in sorted(self.views):
             last[m] = self.state_value(m)
             self.views[m].states_after.append(last[m])
+        ops = sorted(range(len(d.mops)), key=lambda j: (d.mops[j][0], j))
+        oi = 0
         try:
-            for k, ev in enumerate(d.history):
+            for k in range(len(d.history) + 1):
+                while oi < len(ops) and d.mops[ops[oi]][0] <= k:
+                    self.membership(ops[oi], last)
+                    oi += 1
+                if k == len(d.history):
+                    break
+                ev = d.history[k]
                 mid = d.model_of(k)
+                if mid not in self.registered:
+                    continue            # addressed to a model that is not registered at this moment: not sent
                 vw = self.views[mid]
                 # truth value of the models at this moment
                 for m, mo in enumerate(self.model_objs):
                     f = d.falsy[m] if m < len(d.falsy) else 0
-                    mo.__dict__['_truthy'] = not (f == 1 or (f == 2 and self.views[m].calls % 2 == 1))
+                    calls = self.views[m].calls if m in self.views else 0
+                    mo.__dict__['_truthy'] = not (f == 1 or (f == 2 and calls % 2 == 1))
                 vw.calls += 1
                 try:
                     if self.is_async:
@@ -763,7 +873,7 @@ class NestedRun(object):
                 except BaseException as e:
                     if isinstance(e, (common.MachineryError, KeyboardInterrupt, CaseTimeout)):
                         raise
-                for m in self.views:
+                for m in sorted(last):
                     now = self.state_value(m)
                     if m == mid:
                         vw.states_after.append(now)
